@@ -12,7 +12,6 @@ import (
 	"github.com/attestantio/go-eth2-client/spec/phase0"
 	"github.com/attestantio/vouch/internal/vnd"
 	"github.com/attestantio/vouch/internal/vstub"
-	"github.com/rs/zerolog"
 )
 
 const (
@@ -54,7 +53,7 @@ const c07Slot = phase0.Slot(32*10 + 5)
 
 // c07New builds the strategy the way main does: through New.
 func c07New(timeout time.Duration, ct *vstub.ChainTime, cache *c07Cache, threshold int, providers map[string]eth2client.AttestationDataProvider) *Service {
-	s, err := New(context.Background(), WithLogLevel(zerolog.Disabled), WithClientMonitor(vstub.ClientMonitor{}),
+	s, err := New(context.Background(), WithLogLevel(vnd.LogLevel()), WithClientMonitor(vstub.ClientMonitor{}),
 		WithTimeout(timeout), WithProcessConcurrency(int64(len(providers))), WithAttestationDataProviders(providers),
 		WithChainTime(ct), WithBlockRootToSlotCache(cache), WithThreshold(threshold))
 	vnd.Assert(err == nil && s != nil, "C07.new.accepted")
